@@ -742,6 +742,28 @@ void slice1_variant()
         vf::observation("variant::compare(x,y,==) differs from x==y on " + std::to_string(bad) + " of " +
                         std::to_string(n) + " pairs (observed only)");
     }
+    // judged (documented: "equal if they hold the same type T and compare(left.get<T>(), right.get<T>()) holds"): with an
+    // asymmetric function the wrapper must hand the values over in the order of its arguments, i.e. agree with < on
+    // variants holding the same alternative, and be false for different alternatives
+    if (vf::begin_case("variant::compare(x, y, less) against the documented definition, all pairs"))
+    {
+      std::uint64_t n = 0;
+      for (var const &a : f.v)
+        for (var const &b : f.v)
+        {
+          bool const c = fcppt::variant::compare(a, b, [](auto const &l, auto const &r) { return l < r; });
+          bool const want = a.type_index() == b.type_index() && a < b;
+          ++n;
+          if (c != want)
+          {
+            vf::violation("variant<bool,int,string>/variant::compare/less", "mismatch",
+                          std::string("compare(x, y, <) is ") + (c ? "true" : "false") + " where the documented definition gives " + (want ? "true" : "false"));
+            break;
+          }
+        }
+      vf::add_evals(n);
+      vf::count("judged/variant::compare/less", n);
+    }
   }
   if (entry_selected("variant<int>"))
   {
